@@ -87,7 +87,9 @@ def from_operator(op: OperatorTemplate, updates: dict, return_dict: dict, base: 
     """
 
     # collect operator attributes
-    new_dict = {'base': base, 'equations': op.equations, 'variables': op.variables}
+    # work on a copy: `op.variables` holds the operator template's own declarations, which are shared by every node
+    # that uses the operator and must not absorb the per-node updates
+    new_dict = {'base': base, 'equations': list(op.equations), 'variables': dict(op.variables)}
     new_dict['variables'].update(updates)
 
     # add operator definition to the return dictionary
